@@ -1,11 +1,54 @@
-import PyTrie.Model.Basic
-/-! Line-protocol front end for the `sdb.*` commands (stub: to be filled in). -/
+import PyTrie.Model.Sdb
+/-! Line-protocol front end for `ScratchDB` (`sdb.*`). -/
 namespace PyTrie.SdbDrv
+open PyTrie.Sdb PyTrie.HexW
 
 structure St where
-  dummy : Unit := ()
+  s : Sdb := {}
   deriving Inhabited
 
-def step (st : St) (_cmd : String) (_args : List String) : St × String := (st, "bad-op")
+def joinOr (l : List String) (sep : String) : String := if l.isEmpty then "-" else sep.intercalate l
+
+def sortPairs (l : Dict Bytes) : Dict Bytes := (l.toArray.qsort (fun a b => toHex a.1 < toHex b.1)).toList
+
+def fmtDict (d : Dict Bytes) : String := joinOr ((sortPairs d).map fun e => s!"{toHex e.1}:{toHex e.2}") ","
+
+def parsePairs (s : String) : Option (Dict Bytes) :=
+  if s = "-" then some [] else
+  (s.splitOn ",").mapM fun t =>
+    match t.splitOn ":" with
+    | [k, v] => do let k ← ofHex k; let v ← ofHex v; pure (k, v)
+    | _ => none
+
+def step (st : St) (cmd : String) (args : List String) : St × String :=
+  let bad := (st, "bad-op")
+  match cmd, args with
+  | "reset", [] => ({}, "ok")
+  | "new", [ps] =>
+    match parsePairs ps with
+    | some d => ({ s := { wrapped := d.foldl (fun acc e => Dict.insert acc e.1 e.2) [], cache := [] } }, "ok")
+    | none => bad
+  | "get", [k] =>
+    match ofHex k with
+    | some k => (st, match getItem st.s k with | some v => s!"v {toHex v}" | none => "exn KeyError")
+    | none => bad
+  | "set", [k, v] =>
+    match ofHex k, ofHex v with
+    | some k, some v => ({ s := setItem st.s k v }, "ok")
+    | _, _ => bad
+  | "del", [k] => match ofHex k with | some k => ({ s := delItem st.s k }, "ok") | none => bad
+  | "contains", [k] => match ofHex k with | some k => (st, if contains st.s k then "True" else "False") | none => bad
+  | "copy", [] => (st, fmtDict (copy st.s))
+  | "wrapped", [] => (st, fmtDict st.s.wrapped)
+  | "cachelen", [] => (st, toString st.s.cache.length)
+  | "commit", [dd, fa] =>
+    let fa? : Option (Option Nat) := if fa = "none" then some none else fa.toNat?.map some
+    match fa? with
+    | some fa =>
+      let r := commit st.s (dd == "1") fa
+      ({ s := r.2.1 }, if r.1 then "ok" else "exn WriteFailed")
+    | none => bad
+  | "abort", [] => ({ s := abort st.s }, "ok")
+  | _, _ => bad
 
 end PyTrie.SdbDrv
